@@ -368,6 +368,12 @@ def check(run, E, rule='NOESCAPE'):
     direct = {idx.get('_smp'), idx.get('_bmp')}
     if None in direct:
         raise AnalysisBroken('DirectCmap::_smp/_bmp not found')
+    # the allowance rests on a lifetime argument: the pointers live exactly as long as a sibling member that HOLDS the table.
+    # Without a by-value Face::Table member in DirectCmap there is nothing that keeps the buffer borrowed: no allowance.
+    holder = [f for f in rec['fields'] if (f.get('t') or '').replace('const ', '').strip() in ('graphite2::Face::Table', 'Face::Table')]
+    if not holder:
+        direct = set()
+        run.observe('DirectCmap has no Face::Table member any more: stores of table pointers into _smp/_bmp are no longer covered by the same-lifetime allowance')
     ne = NoEscape(ir, direct)
     rounds = ne.solve()
     run.analysed['noescape_rounds'] = rounds
